@@ -11,6 +11,17 @@ package main
 //   conc : each of the <goroutines> concurrent callers sharing the argument objects obtained the solo result.
 // The model answers pure=1 same=1 conc=1 on every line (each entry point is a function of the values of its arguments).
 //
+// The low 4 bits of <seed> are the SHAPE of the line: shapes 0 and 1 are the two smallest arities / sizes of the family
+// (1 pair, 1 polynomial, batch of 1, 1 point, domains of size 1 and 2, the empty message …), shape 2 a large one, shapes
+// 3, 4 family specific (e.g. the kind of the large shared fft domain), every other shape draws the sizes at random.
+//
+// Op line   : C18 fresh <global> <package> <goroutines> <children> <seed>
+// Go answer : pure=1 same=1 conc=<b>. The executor computes the values of the entry points that use the lazily
+//   initialised <global> of <package> (it is initialised by then), and then <children> times re-executes its own binary
+//   with the request in the environment (see c18FreshEarly): the child's very first use of the library is made by <goroutines>
+//   goroutines released together (random spin / Gosched jitter, GOMAXPROCS varied per child); each result is compared
+//   with the parent's value, then once more sequentially. A wrong value or a crashed child gives conc=0.
+//
 // Op line   : C18 ranges <n> <nbTasks>   answer: the [start,end) ranges handed to work by internal/parallel.Execute
 // (reached with go:linkname because the package is internal), sorted by start, "s:e s:e …" in hex, "-" if none.
 
@@ -19,13 +30,17 @@ import (
 	"encoding/binary"
 	"encoding/hex"
 	"fmt"
+	"os"
+	"os/exec"
 	"reflect"
 	"runtime"
+	"runtime/debug"
 	"sort"
 	"strconv"
 	"strings"
 	"sync"
-	_ "unsafe"
+	"sync/atomic"
+	"unsafe"
 )
 
 //go:linkname c18ParallelExecute github.com/consensys/gnark-crypto/internal/parallel.Execute
@@ -65,6 +80,11 @@ func (d *deepHasher) walk(v reflect.Value) {
 		d.h.Write([]byte(v.String()))
 	case reflect.Array:
 		n := v.Len()
+		if v.Type().Elem().Kind() == reflect.Uint64 && v.CanAddr() && n > 0 && c18LittleEndian {
+			// field elements: the limbs in one Write (the same bytes as the loop below would write)
+			d.h.Write(unsafe.Slice((*byte)(v.Addr().UnsafePointer()), 8*n))
+			return
+		}
 		for i := 0; i < n; i++ {
 			d.walk(v.Index(i))
 		}
@@ -128,6 +148,8 @@ func (d *deepHasher) walk(v reflect.Value) {
 	}
 }
 
+var c18LittleEndian = func() bool { x := uint16(1); return *(*byte)(unsafe.Pointer(&x)) == 1 }()
+
 func deepHashValue(v reflect.Value) string {
 	h := sha256.New()
 	d := &deepHasher{h: h, seen: map[uintptr]bool{}}
@@ -156,13 +178,40 @@ type c18Sess struct {
 	concFirst bool
 }
 
-type c18Maker func(r *rng) *c18Sess
+type c18Maker func(r *rng, shape int) *c18Sess
+
+// the entry points that go through one lazily initialised global; building them must not touch the global
+type c18FreshMaker func(r *rng) []func() string
+
+var c18FreshGlobals = []string{"mimc", "poseidon2", "edwards", "lagrange", "bigintpool"}
+
+// same table as GV.ForkJoin.freshSupported
+func c18FreshSupported(global, pkg string) bool {
+	isCurve, isField := false, false
+	for _, c := range c18Curves {
+		isCurve = isCurve || c == pkg
+	}
+	for _, c := range c18SmallFields {
+		isField = isField || c == pkg
+	}
+	switch global {
+	case "mimc", "lagrange":
+		return isCurve || pkg == "grumpkin"
+	case "poseidon2":
+		return isCurve || isField || pkg == "grumpkin"
+	case "edwards":
+		return isCurve || pkg == "bandersnatch"
+	case "bigintpool":
+		return isCurve
+	}
+	return false
+}
 
 // "<entry>/<curve>" -> maker
 var c18Makers = map[string]c18Maker{}
 
 var c18Entries = []string{"pairfixedq", "millerloopfixedq", "pairingcheckfixedq", "pair", "kzgverify", "kzgbatchverify",
-	"kzgopen", "kzgcommit", "multiexp", "fft", "mimc", "poseidon2", "sis", "batchscalarmul", "batchjactoaff", "iop",
+	"kzgopen", "kzgcommit", "kzgbatchopen", "multiexp", "fft", "mimc", "poseidon2", "sis", "batchscalarmul", "batchjactoaff", "iop",
 	"vector", "codec", "edwards", "polypool", "mdhasher"}
 var c18Curves = []string{"bn254", "bls12-377", "bls12-381", "bls24-315", "bls24-317", "bw6-633", "bw6-761"}
 var c18SmallFields = []string{"koalabear", "babybear", "goldilocks"}
@@ -216,6 +265,9 @@ func c18SafeCall(f func() string) (res string) {
 	defer func() {
 		if r := recover(); r != nil {
 			res = "panic"
+			if os.Getenv("GV_PANIC_DETAIL") != "" {
+				fmt.Fprintf(os.Stderr, "C18 panic: %v\n%s\n", r, debug.Stack())
+			}
 		}
 	}()
 	return f()
@@ -241,6 +293,15 @@ func execC18(a []string) string {
 		}
 		return c18Ranges(int(n), int(nb))
 	}
+	if len(a) == 6 && a[0] == "fresh" {
+		g, ok1 := c18Hex(a[3], 1, 64)
+		n, ok2 := c18Hex(a[4], 1, 200)
+		seed, ok3 := c18Hex(a[5], 0, ^uint64(0))
+		if !ok1 || !ok2 || !ok3 || !c18FreshSupported(a[1], a[2]) {
+			return "err:args"
+		}
+		return c18FreshParent(a[1], a[2], int(g), int(n), seed)
+	}
 	if len(a) != 6 {
 		return "err:args"
 	}
@@ -252,10 +313,11 @@ func execC18(a []string) string {
 	if !ok1 || !ok2 || !ok3 || !ok4 || !c18Supported(entry, curve) {
 		return "err:args"
 	}
-	mk := c18Makers[entry+"/"+curve]
-	if mk == nil {
+	mk0 := c18Makers[entry+"/"+curve]
+	if mk0 == nil {
 		return "err:unimplemented"
 	}
+	mk := func(r *rng) *c18Sess { return mk0(r, int(seed&0xf)) }
 	old := runtime.GOMAXPROCS(int(p))
 	defer runtime.GOMAXPROCS(old)
 
@@ -339,6 +401,160 @@ func execC18(a []string) string {
 	return out
 }
 
+func c18Short(s string) string {
+	h := sha256.Sum256([]byte(s))
+	return hex.EncodeToString(h[:8])
+}
+
+var c18ChildProcs = []string{"", "2", "4", "3", "8"}
+
+func c18FreshParent(global, pkg string, g, children int, seed uint64) string {
+	mk := c18FreshLookup(global, pkg)
+	if mk == nil {
+		return "err:unimplemented"
+	}
+	vs := mk(newRng(seed))
+	exp := make([]string, len(vs))
+	for i := range vs {
+		exp[i] = c18Short(c18SafeCall(vs[i]))
+	}
+	same := true
+	for i := range vs {
+		same = same && c18Short(c18SafeCall(vs[i])) == exp[i]
+	}
+	line := fmt.Sprintf("%s %s %x %x %s", global, pkg, g, seed, strings.Join(exp, ","))
+	// (up to 4 children at a time)
+	var failed atomic.Int64
+	failed.Store(-1)
+	sem := make(chan struct{}, 4)
+	var wg sync.WaitGroup
+	for j := 0; j < children && failed.Load() < 0; j++ {
+		sem <- struct{}{}
+		wg.Add(1)
+		go func(j int) {
+			defer func() { <-sem; wg.Done() }()
+			cmd := exec.Command(os.Args[0])
+			cmd.Env = append(os.Environ(), c18FreshEnv+"="+line)
+			if p := c18ChildProcs[j%len(c18ChildProcs)]; p != "" {
+				cmd.Env = append(cmd.Env, "GOMAXPROCS="+p)
+			}
+			out, err := cmd.Output()
+			res := strings.TrimSpace(string(out))
+			if err != nil {
+				res = "crash"
+			}
+			if res != "ok" {
+				if os.Getenv("GV_C18_DETAIL") != "" {
+					fmt.Fprintf(os.Stderr, "C18 fresh %s %s: child %d: %s\n", global, pkg, j, res)
+				}
+				failed.Store(int64(j))
+			}
+		}(j)
+	}
+	wg.Wait()
+	if failed.Load() >= 0 {
+		return "pure=1 same=" + boolStr(same) + " conc=0"
+	}
+	return "pure=1 same=" + boolStr(same) + " conc=1"
+}
+
+// The child. Other files of the harness use the library in their init() functions (e.g. GetEdwardsCurve of every
+// twisted Edwards package), so the child cannot wait for main(): the initialisation of this package-level variable runs
+// after the init() functions of the imported packages (the hash registry is filled) and before every init() function
+// of the harness; it answers on stdout and exits.
+const c18FreshEnv = "GV_C18_FRESHCHILD"
+
+var _ = c18FreshEarly()
+
+func c18FreshEarly() bool {
+	line := os.Getenv(c18FreshEnv)
+	if line == "" {
+		return false
+	}
+	res := "err:args"
+	if a := strings.Fields(line); len(a) == 5 {
+		g, ok1 := c18Hex(a[2], 1, 64)
+		seed, ok2 := c18Hex(a[3], 0, ^uint64(0))
+		if ok1 && ok2 && c18FreshSupported(a[0], a[1]) {
+			res = c18FreshChild(a[0], a[1], int(g), seed, strings.Split(a[4], ","))
+		}
+	}
+	os.Stdout.WriteString(res + "\n")
+	os.Exit(0)
+	return true
+}
+
+// runs in the re-executed binary: nothing of the package under test has been used yet
+func c18FreshChild(global, pkg string, g int, seed uint64, exp []string) string {
+	mk := c18FreshLookup(global, pkg)
+	if mk == nil {
+		return "err:unimplemented"
+	}
+	vs := mk(newRng(seed))
+	if len(exp) != len(vs) {
+		return "err:args"
+	}
+	res := make([]string, g)
+	start := make(chan struct{})
+	var ready, wg sync.WaitGroup
+	var sink, released atomic.Uint64
+	// two barriers: a closed channel (the callers are woken one after the other, a few µs apart) or, in every other
+	// child, a flag the callers poll (all leave within a fraction of a µs, then a private delay of 0 .. ~100 µs on a
+	// log-uniform scale spreads the arrivals over initialisers of any duration)
+	polling := os.Getpid()%2 == 0
+	for i := 0; i < g; i++ {
+		ready.Add(1)
+		wg.Add(1)
+		go func(i int) {
+			defer wg.Done()
+			lr := newRng(seed + uint64(i)*7919 + uint64(os.Getpid()))
+			spin := lr.intn(1 << (1 + lr.intn(18)))
+			yields := lr.intn(3)
+			if polling {
+				yields = 0
+			}
+			f := vs[i%len(vs)]
+			ready.Done()
+			if polling {
+				for released.Load() == 0 {
+					runtime.Gosched()
+				}
+			} else {
+				<-start
+			}
+			for ; yields > 0; yields-- {
+				runtime.Gosched()
+			}
+			acc := uint64(i)
+			for x := 0; x < spin; x++ {
+				acc = acc*6364136223846793005 + 1442695040888963407
+			}
+			sink.Add(acc & 1)
+			res[i] = c18Short(c18SafeCall(f))
+		}(i)
+	}
+	ready.Wait()
+	released.Store(1)
+	close(start)
+	wg.Wait()
+	bad := 0
+	for i := range res {
+		if res[i] != exp[i%len(vs)] {
+			bad++
+		}
+	}
+	after := 0
+	for i := range vs { // and the global is in its final state: sequential calls give the parent's values
+		if c18Short(c18SafeCall(vs[i])) != exp[i] {
+			after++
+		}
+	}
+	if bad == 0 && after == 0 {
+		return "ok"
+	}
+	return fmt.Sprintf("bad:%d/%d,after:%d", bad, g, after)
+}
+
 func c18Ranges(n, nb int) string {
 	var mu sync.Mutex
 	var rs [][2]int
@@ -379,7 +595,7 @@ func genC18(g *gen) {
 		g.emit("C18 ranges %x %x", n, g.rng.intn(700))
 	}
 
-	// entry points
+	// entry points: every family at its two minimal shapes, a large one, the family specific ones and random ones
 	all := append(append([]string{}, c18Curves...), c18SmallFields...)
 	reps := g.budget(1, 6)
 	for _, entry := range c18Entries {
@@ -387,9 +603,27 @@ func genC18(g *gen) {
 			if !c18Supported(entry, curve) || c18Makers[entry+"/"+curve] == nil {
 				continue
 			}
+			shapes := []int{0, 1, 2}
+			switch entry {
+			case "fft", "kzgbatchopen":
+				shapes = []int{0, 1, 2, 3, 4}
+			case "kzgbatchverify":
+				shapes = []int{0, 1, 3}
+			case "kzgverify", "kzgcommit":
+				shapes = []int{0, 1}
+			case "multiexp", "batchscalarmul", "batchjactoaff", "codec": // (the large shape costs seconds on the bw6 curves)
+				if !g.thorough() {
+					shapes = []int{0, 1}
+				}
+			case "edwards":
+				shapes = nil
+			}
 			for rep := 0; rep < reps; rep++ {
+				shapes = append(shapes, 5+g.rng.intn(11))
+			}
+			for si, shape := range shapes {
 				procs := []int{c18Procs[g.rng.intn(len(c18Procs))]}
-				if g.thorough() && rep == 0 {
+				if g.thorough() && si == len(shapes)-1 {
 					procs = c18Procs
 				}
 				for _, p := range procs {
@@ -398,16 +632,38 @@ func genC18(g *gen) {
 					if g.thorough() && g.rng.intn(8) == 0 {
 						gor = 17 + g.rng.intn(48)
 					}
-					g.emit("C18 %s %s %x %x %x %x", entry, curve, k, gor, p, g.rng.u64()>>16)
+					if entry == "fft" && shape >= 2 && shape <= 4 { // ONE large domain shared by >= 8 goroutines
+						gor = 8 + g.rng.intn(g.budget(5, 25))
+						if p < 2 {
+							p = 8
+						}
+					}
+					g.emit("C18 %s %s %x %x %x %x", entry, curve, k, gor, p, (g.rng.u64()>>20)<<4|uint64(shape))
 				}
 			}
+		}
+	}
+	// lazily initialised globals: concurrent FIRST use in fresh processes
+	children := g.budget(5, 34)
+	for _, global := range c18FreshGlobals {
+		for _, pkg := range append(append([]string{}, all...), "grumpkin", "bandersnatch") {
+			if !c18FreshSupported(global, pkg) || c18FreshLookup(global, pkg) == nil {
+				continue
+			}
+			for _, n := range []int{2, 8, 32} {
+				g.emit("C18 fresh %s %s %x %x %x", global, pkg, n, children, g.rng.u64()>>16)
+			}
+			g.emit("C18 fresh %s %s 1 1 %x", global, pkg, g.rng.u64()>>16) // plain first use in a fresh process
 		}
 	}
 	// malformed stream
 	for _, l := range []string{"C18", "C18 ranges", "C18 ranges 1", "C18 ranges zz 1", "C18 ranges 1 2 3", "C18 pair bn254 2 2 2",
 		"C18 nosuch bn254 2 2 2 1", "C18 pair nosuch 2 2 2 1", "C18 sis bn254 2 2 2 1", "C18 pair bn254 0 2 2 1",
 		"C18 pair bn254 9 2 2 1", "C18 pair bn254 2 41 2 1", "C18 pair bn254 2 2 0 1", "C18 pair bn254 2 2 2 xyz",
-		"C18 pair koalabear 2 2 2 1", "C18 pair bn254 2 2 2 1 1", "C18 PAIR bn254 2 2 2 1", "C18 pair bn254 2 2 2 A"} {
+		"C18 pair koalabear 2 2 2 1", "C18 pair bn254 2 2 2 1 1", "C18 PAIR bn254 2 2 2 1", "C18 pair bn254 2 2 2 A",
+		"C18 fresh mimc bn254 2 2", "C18 fresh nosuch bn254 2 2 1", "C18 fresh mimc koalabear 2 2 1", "C18 fresh mimc bn254 0 2 1",
+		"C18 fresh mimc bn254 41 2 1", "C18 fresh mimc bn254 2 0 1", "C18 fresh mimc bn254 2 c9 1", "C18 fresh edwards grumpkin 2 2 1",
+		"C18 fresh bigintpool bandersnatch 2 2 1", "C18 fresh mimc bn254 2 2 xyz", "C18 fresh fresh bn254 2 2 1"} {
 		g.emit("%s", l)
 	}
 }
